@@ -24,6 +24,7 @@ def strayOf (c : Cfg) (e : Env) : Op → Nat
   | .openPos _ _ _ => 0
   | .expandPos _ _ _ => 0
   | .helperDeposit _ _ _ => 0
+  | .helperDepositAs _ _ _ _ _ => 0
   | .openFlow a _ _ _ =>
     if a = 0 then 0
     else if c.feeAsset = 0 then (if c.native a = true then 0 else lpOffer c e - c.feeAmt)
@@ -353,5 +354,6 @@ theorem handler_custody {c : Cfg} {s s1 : St} {e : Env} {op : Op} {msgs : List M
       simp only [strayOf, lpOffer, if_true]
       omega
   | helperDeposit a0 a1 dur => cases h
+  | helperDepositAs x0 x1 a0 a1 dur => cases h
 
 end WW.Inc
